@@ -29,6 +29,8 @@ def deco(fn):
         return fn(*args, **kwargs)
     return wrapper
 
+GLOB = 5
+
 def meth(x):
     v = x * 100
     return v
@@ -37,6 +39,12 @@ class Plain:
     def meth(self, x):
         v = x + 1
         return v
+    def uses_global(self, x):
+        v = x + GLOB
+        return v
+    def outer(self, other, x):
+        w = other.meth(x)
+        return w
     @deco
     def wrapped(self, x):
         v = x + 2
@@ -227,6 +235,8 @@ def work(unit, tier):
     ns = world.make_module(SRC, pin=True)
     if unit[0] == "paths":
         check_paths(ns, part)
+        check_focus_variants(ns, part)
+        attribute_known(part)
         return part
     _, kinds, seqlen = unit
     objs = [make_instance(ns, k) for k in kinds]
@@ -252,6 +262,47 @@ def work(unit, tier):
     if not part["samples"]:
         part["samples"].append({"population": list(kinds), "targets": [list(t) for t in targets], "alphabet": [str(a) for a in alphabet]})
     return part
+
+
+def check_focus_variants(ns, part):
+    """Object selectors whose focus fires before / after the receiver parameter is bound, and
+    object selectors at two levels."""
+    from ptera import probing
+
+    a, b = ns["Plain"](), ns["Plain"]()
+    env = dict(ns, a=a, b=b)
+    cases = [
+        # (selector, action, expected number of events, tag)
+        ("a.meth > #value", lambda: (a.meth(1), b.meth(2), a.meth(3)), 2, "focus-after-receiver"),
+        ("a.meth(x) > v", lambda: (b.meth(2), a.meth(3)), 1, "focus-after-receiver"),
+        ("a.meth > x", lambda: (b.meth(2), a.meth(3), b.meth(4)), 1, "focus-after-receiver"),
+        ("a.meth > #enter", lambda: (a.meth(1), b.meth(2), a.meth(3)), 2, "focus-before-receiver"),
+        ("a.uses_global > GLOB", lambda: (a.uses_global(1), b.uses_global(2)), 1, "focus-before-receiver"),
+        ("a.meth > #exit", lambda: (a.meth(1), b.meth(2)), 1, "focus-after-receiver"),
+        ("a.outer > b.meth > v", lambda: (a.outer(b, 1), b.outer(b, 2), a.outer(a, 3)), 1, "nested-object-selectors"),
+        ("a.outer > Plain.meth > v", lambda: (a.outer(b, 1), b.outer(b, 2), a.outer(a, 3)), 2, "outer-object-inner-class"),
+        ("Plain.outer > b.meth > v", lambda: (a.outer(b, 1), b.outer(b, 2), a.outer(a, 3)), 2, "outer-class-inner-object"),
+    ]
+    for text, action, n, tag in cases:
+        part["cases"] += 1
+        part["evaluations"] += 1
+        part["steps"] += 1
+        got = []
+        try:
+            with probing(text, env=env) as p:
+                p.subscribe(got.append)
+                action()
+        except BaseException as e:
+            world.reset_context()
+            part["violations"].append(violation(PROP, "variant-error", {"variant": text}, f"{text}: {type(e).__name__}: {e}", tags=[tag]))
+            continue
+        part["outcomes"][f"variant:{tag}:{len(got) == n}"] += 1
+        if len(got) != n:
+            part["violations"].append(violation(
+                PROP, "wrong-receiver-filter", {"variant": text},
+                f"{text}: expected {n} events (calls on the probed receiver only), delivered {len(got)}: {got!r}", tags=[tag]))
+        else:
+            part["nontrivial"] += 1
 
 
 def check_paths(ns, part):
@@ -297,9 +348,32 @@ def check_paths(ns, part):
     part["samples"].append({"paths": [c[0] for c in cases]})
 
 
+def attribute_known(part):
+    from pv.core.runner import open_findings
+
+    listed = open_findings(PROP)
+    keep = []
+    for v in part["violations"]:
+        fid = None
+        for e in listed.values():
+            if all(t in v["tags"] for t in e["match"]["tags"]) and v["kind"] == e["match"].get("kind", v["kind"]):
+                fid = e["id"]
+                break
+        if fid:
+            part["known"][fid] += 1
+            part["known_examples"].setdefault(fid, v["case"])
+        else:
+            keep.append(v)
+    part["violations"] = keep
+
+
 def replay(case):
     part = new_partial()
     ns = world.make_module(SRC, pin=True)
+    if "variant" in case:
+        check_focus_variants(ns, part)
+        bad = [v for v in part["violations"] if v["case"]["variant"] == case["variant"]]
+        return (True, bad[0]["detail"]) if bad else (False, "only calls on the probed receiver are delivered")
     if "path" in case:
         check_paths(ns, part)
         bad = [v for v in part["violations"] if v["case"]["path"] == case["path"]]
